@@ -470,6 +470,9 @@ def units_C09(tier, seed):
                 if t == 'double' and not th and ln != 3:
                     continue
                 U += unit(f'c09_chain_{ln}_{n}_{t}', H, f'chain_h<{n},{t},{ln}>()', 'INT', sites=[1], diff=(n == 2 and ln == 3), weight=n * ln, forbid=fb)
+        if n == 1:
+            for t in ('float', 'double'):
+                U += unit(f'c09_factories_mixed_{t}', H, f'factories_mixed_h<{t}>()', 'BITS', sites=[1, 2, 3, 4, 5], extra=['-Wno-c++11-narrowing'], diff=True)
         for m in ((1, 2, 3, 4) if th else ((n % 4) + 1,)):
             t = 'float' if (n + m) % 2 else 'double'
             U += unit(f'c09_layer_{n}_{m}_{t}', H, f'layer_h<{n},{m},{t}>()', 'INT', sites=[1, 2, 3, 4], diff=(n == 2),
